@@ -789,6 +789,7 @@ type trustCfg struct {
 	kds  []saml.KeyDescriptor
 	toks []string
 	set  map[string]bool
+	pin  string // kind x: which incomplete / contradictory pin fields are set ("fp", "alg", "fp+cert", "alg+cert", "fp+alg+cert")
 }
 
 func (s *xswScript) certB64(key string) string {
@@ -805,7 +806,13 @@ func (s *xswScript) randTrust() trustCfg {
 	}
 	t := trustCfg{set: map[string]bool{}}
 	switch s.c.rng.Intn(16) {
-	case 0, 1, 8, 9, 10, 11, 12:
+	case 12:
+		// an unusable pin next to metadata that lists the genuine certificate: nothing is trusted
+		t.kind = "x"
+		t.pin = s.c.pick("fp", "alg", "fp+cert", "alg+cert", "fp+alg+cert")
+		t.kds = []saml.KeyDescriptor{mk("signing", "idp")}
+		s.c.count("c01-unusable-pin", t.pin)
+	case 0, 1, 8, 9, 10, 11:
 		t.kind = "m"
 		t.kds = []saml.KeyDescriptor{mk("signing", "idp")}
 	case 13, 14:
@@ -883,6 +890,22 @@ func (s *xswScript) realSP(t trustCfg) *saml.ServiceProvider {
 		fp := strings.Join(parts, ":")
 		sp.IDPCertificateFingerprint = &fp
 		sp.IDPCertificateFingerprintAlgorithm = &alg
+	case "x":
+		x := sha256.Sum256(s.c.key("idp").Cert.Raw)
+		var parts []string
+		for _, b := range x {
+			parts = append(parts, fmt.Sprintf("%02X", b))
+		}
+		fp, alg, cert := strings.Join(parts, ":"), "http://www.w3.org/2001/04/xmlenc#sha256", s.certB64("idp")
+		if strings.Contains(t.pin, "fp") {
+			sp.IDPCertificateFingerprint = &fp
+		}
+		if strings.Contains(t.pin, "alg") {
+			sp.IDPCertificateFingerprintAlgorithm = &alg
+		}
+		if strings.Contains(t.pin, "cert") {
+			sp.IDPCertificate = &cert
+		}
 	}
 	return sp
 }
